@@ -35,7 +35,7 @@ def render_source(sc):
     return eng.render_source(sc)
 
 DRIVER_ERR = eng.DRIVER_ERR
-K = dict(wrapped_coros=0.4, base_exc=0.15, p_clone=0.2, cbs=0.5, conv=0.25, guards=0.5, validators=0.25, sends=0.12, raises=0.04, guard_raise=0.0, multi_event=0.4,
+K = dict(sig_attr=0.15, twin_decoy=0.3, exc_classes=0.35, wrapped_coros=0.4, base_exc=0.15, p_clone=0.2, cbs=0.5, conv=0.25, guards=0.5, validators=0.25, sends=0.12, raises=0.04, guard_raise=0.0, multi_event=0.4,
          multi_cand=0.6, p_async=0.0, rtc_false=0.0, ops=(2, 9), scripts=(0, 3), share_groups=0.0, falsy_machine=0.0)
 DRIVERS = ["plain", "loop", "threads"]
 
@@ -66,6 +66,10 @@ def variants(base, rng):
                     acoro.append(list(key))
         v = copy.deepcopy(base)
         v["async"] = acoro
+        if base.get("twin_decoy"):
+            # the decoy instance created first is of the other kind: plain model / listeners when this variant's
+            # coroutines live on the model / listeners only (for the sync twin the decoy's are coroutines)
+            v["twin_decoy"] = "plain" if not any(x[0] == 0 for x in acoro) else None
         # some of them (never the first: the engine is chosen from coroutine *functions*) are plain functions
         # returning the coroutine / an awaitable object
         v["wrapped_coros"] = [list(x) for x in acoro[1:] if rng.random() < 0.3] if rng.random() < 0.5 else []
